@@ -77,6 +77,34 @@ theorem actMat_row (A : Matrix (Fin n) (Fin n) K) (X : Matrix (Fin k) (Fin n) K)
 example : (!![1, 2; 0, 1] : Matrix (Fin 2) (Fin 2) ℚ).det ≠ 0 := by
   simp [Matrix.det_fin_two]
 
+/-! ## dual data (a functional `f`, i.e. the hyperplane `{w : f·w = 0}`; `ConvexPolygon.dual_data`)
+transforms by the inverse transpose (`_apply_to_data(..., dual=True)`, as repaired): the dual
+hyperplane moves with the points, and the action laws hold for this block too -/
+
+/-- the image functional vanishes on the image of a point iff the functional vanished on the point:
+`(f A⁻ᵀ)·(w A) = f·w` -/
+theorem dual_incidence (A : Matrix (Fin n) (Fin n) K) (hA : A.det ≠ 0) (f w : Fin n → K) :
+    actRow (A⁻¹)ᵀ f ⬝ᵥ actRow A w = f ⬝ᵥ w := by
+  have hu : IsUnit A.det := isUnit_iff_ne_zero.2 hA
+  unfold actRow
+  rw [Matrix.vecMul_transpose, dotProduct_comm, ← Matrix.dotProduct_mulVec,
+    Matrix.mulVec_mulVec, Matrix.mul_nonsing_inv _ hu, Matrix.one_mulVec, dotProduct_comm]
+
+/-- `(A @ B)` acts on dual data as `A` after `B` (the inverse transpose of `B·A` is `B⁻ᵀ·A⁻ᵀ`) -/
+theorem apply_comp_dual (A B : Matrix (Fin n) (Fin n) K) (f : Fin n → K) :
+    actRow ((compose A B)⁻¹)ᵀ f = actRow (A⁻¹)ᵀ (actRow (B⁻¹)ᵀ f) := by
+  simp [actRow, compose, actMat, Matrix.vecMul_vecMul, Matrix.mul_inv_rev, Matrix.transpose_mul]
+
+/-- the code before the repair multiplied dual data by the matrix itself; then the dual hyperplane
+does not follow the points (witness: a shear of the plane) -/
+theorem dual_unrepaired_counterexample :
+    ∃ (A : Matrix (Fin 2) (Fin 2) ℚ) (f w : Fin 2 → ℚ), A.det ≠ 0 ∧ f ⬝ᵥ w = 0 ∧
+      actRow A f ⬝ᵥ actRow A w ≠ 0 := by
+  refine ⟨!![1, 1; 0, 1], ![1, 0], ![0, 1], ?_, ?_, ?_⟩
+  · simp [Matrix.det_fin_two]
+  · simp [dotProduct, Fin.sum_univ_two]
+  · simp [actRow, Matrix.vecMul, dotProduct, Fin.sum_univ_two]
+
 /-! ## derived data transforms with the object ("as projective objects including their derived
 data"): recomputing it from the transformed primary data gives the transformed derived data -/
 
